@@ -116,6 +116,9 @@ func main() {
 			if !okay {
 				bad++
 			}
+			if okay && !*dump && o.Seconds >= 2 && !o.MustFail {
+				fmt.Printf("slow   %-8s %-40s %.2fs %s | %.100s\n", o.Status, o.ID, o.Seconds, o.Solver, o.Desc)
+			}
 			if *dump || !okay {
 				fmt.Printf("%-6s %-8s %-40s %s | %s | %.2fs %s %v\n", map[bool]string{true: "ok", false: "FAIL"}[okay], o.Status, o.ID, o.Pos, o.Desc, o.Seconds, o.Solver, o.Model)
 			}
@@ -427,6 +430,13 @@ func writeEvidence(e *Engine, path, prop, tier string, pc *PropConfig, results [
 	}
 	sorted := append([]*Obligation{}, all...)
 	sort.SliceStable(sorted, func(i, j int) bool { return sorted[i].Seconds > sorted[j].Seconds })
+	slow := []string{}
+	for _, o := range sorted {
+		if o.MustFail || o.Seconds < 5 {
+			continue
+		}
+		slow = append(slow, fmt.Sprintf("%s %.1fs %s %s", o.ID, o.Seconds, o.Solver, o.Status))
+	}
 	for i, o := range sorted {
 		if i >= 6 {
 			break
@@ -484,6 +494,7 @@ func writeEvidence(e *Engine, path, prop, tier string, pc *PropConfig, results [
 		"per_backend":                        stats.perSolver,
 		"solver_seconds":                     round2(stats.seconds),
 		"slowest_obligation_s":               round2(slowest),
+		"slow_obligations_over_5s":           slow,
 		"obligation_kinds":                   kinds,
 		"samples":                            samples,
 		"vacuity_guards":                     map[string]int{"total": guards, "behaved": guardsOK},
